@@ -1881,7 +1881,7 @@ _AddLru_check0 = AddLru.check
 _AddLru_prepare0 = AddLru.prepare
 
 
-ADD_LRU_HISTORY = __import__("os").environ.get("PYVC_ADDLRU_HISTORY") == "1"  # work in progress: see DESIGN I.6
+ADD_LRU_HISTORY = __import__("os").environ.get("PYVC_ADDLRU_HISTORY", "1") != "0"  # (PYVC_ADDLRU_HISTORY=0 switches the history clauses off)
 
 
 def _addlru_prepare(self, ex):
